@@ -24,8 +24,9 @@ LEAN_MODULES = ["DaskModel.Props.C21"]
 CASE_TIMEOUT_S = 30
 LEVEL_TEXT = (
     "Lean 4 theorems over a transliteration of the integer logic of parse_assignment_indices (slice branch) and "
-    "of the per-block planning of setitem_array: a decreasing slice and its reformatted increasing slice select "
-    "the same positions in opposite order and the implied size is the selection length; for every chunk list the "
+    "of the per-block planning of setitem_array: for every axis length and slice, after normalisation the "
+    "reformatted slice has a positive step and selects the original positions (in opposite order iff the axis "
+    "is flagged reversed) and the implied size is the selection length (parse_spec, full); for every chunk list the "
     "per-block slices tile the parsed slice (each selected position is assigned in exactly one block), "
     "block_index_size and n_preceding are the counts the value slices need, so the value pieces "
     "[n_preceding, n_preceding+size) partition the value in selection order; the same for integer-array and "
@@ -407,16 +408,16 @@ CASES = {"parse": case_parse, "plan": case_plan, "api": case_api, "mask": case_m
 def _ridx(rng, n, allow_fancy, dask_idx):
     t = rng.random()
     v = [None] + list(range(-n - 2, n + 3))
-    if t < 0.5 or n == 0:
+    if t < 0.4 or n == 0:
         return ("slice", [rng.choice(v), rng.choice(v), rng.choice([None, 1, 2, 3, -1, -2, -3])])
-    if t < 0.68:
+    if t < 0.55:
         return ("int", rng.randrange(-n, n))
     if not allow_fancy:
         return ("slice", [None, None, None])
-    if t < 0.86:
-        k = "dalist" if dask_idx and rng.random() < 0.3 else "list"
+    if t < 0.78:
+        k = "dalist" if dask_idx and rng.random() < 0.4 else "list"
         return (k, [rng.randrange(-n, n) for _ in range(rng.randint(1, n + 1))])
-    k = "dabool" if dask_idx and rng.random() < 0.3 else "bool"
+    k = "dabool" if dask_idx and rng.random() < 0.6 else "bool"
     return (k, [rng.random() < 0.5 for _ in range(n)])
 
 
@@ -481,6 +482,31 @@ def generate(ctx):
         if c:
             c["dask_value"] = rng.random() < 0.4
             yield "api", c
+    # broadcasting a size-1 value axis over an array / boolean index (NumPy and dask), every chunking of the indexed axis
+    for n in range(2, 5):
+        for lengths in compositions(n):
+            for kind in ("list", "bool", "dalist", "dabool"):
+                if not thorough and rng.random() > 0.45:
+                    continue
+                other = rng.randint(1, 3)
+                och = list(random_chunks(rng, other))
+                if kind in ("list", "dalist"):
+                    ind = [rng.randrange(-n, n) for _ in range(rng.randint(1, n + 1))]
+                    if rng.random() < 0.5:
+                        ind = sorted(set(i % n for i in ind))
+                else:
+                    ind = [rng.random() < 0.7 for _ in range(n)]
+                form = rng.randrange(3)
+                if form == 0:
+                    c = {"shape": [n, other], "chunks": [list(lengths), och], "index": [(kind, ind)], "vshape": [1, other]}
+                elif form == 1:
+                    c = {"shape": [other, n], "chunks": [och, list(lengths)], "index": [("int", rng.randrange(other)), (kind, ind)],
+                         "vshape": [1]}
+                else:
+                    c = {"shape": [other, n], "chunks": [och, list(lengths)],
+                         "index": [("slice", [None, None, rng.choice([None, -1])]), (kind, ind)], "vshape": [other, 1]}
+                c["dask_value"] = rng.random() < 0.4
+                yield "api", c
     for _ in range(ctx.n(40, 600)):
         nd = rng.randint(1, 3)
         shape = [rng.randint(1, 4) for _ in range(nd)]
